@@ -97,10 +97,11 @@ def run(facts, res):
             res.violation("Q4", "refresh|reloads-known-blocks", "refresh (re)inserts blocks it already holds: an applied block would be replaced by a Pending copy and applied again", rf.loc())
     dr = facts.body("datastorage::DataStorage::refresh")
     if dr is not None:
-        loads = [(bi, t) for bi, t in dr.calls() if t.callee is not None and t.callee.name == R.name("pack_loader")]
+        pl = R.path("pack_loader")
+        loads = [(s_.block, s_.term) for s_ in cg.sites[dr.path] if not s_.fanout and any(t_.path == pl or cg.reaches(t_, pl) for t_ in s_.targets)]
         ok = bool(loads)
         for bi, t in loads:
-            kv = {x[1] for x in walk(arg_term(dr, t, 1, 12)) if x[0] == "var"}
+            kv = {x[1] for i_ in range(1, len(t.args)) for x in walk(arg_term(dr, t, i_, 12)) if x[0] == "var"}
             g = any(l.kind == "call" and callee_name(l.term) == "contains" and l.truth is False and "applied_pack_ids" in field_path(l.term[2][0])[0] and
                     ({x[1] for x in walk(l.term[2][1]) if x[0] == "var"} & kv) for l in lits_of(dr, bi, facts))
             ok = ok and g
@@ -128,11 +129,17 @@ def run(facts, res):
             b = facts.body(name)
             if b is None:
                 continue
-            for bi, t in b.calls():
-                if t.callee is None or t.callee.name != callee:
+            for s_ in cg.sites[b.path]:
+                t = s_.term
+                bi = s_.block
+                if t.callee is None or s_.fanout or ("datastorage::DataStorage", "stage") not in eff.site_effects(s_):
+                    continue
+                if t.callee.target() in ("melda::Melda::delete_object",):
                     continue
                 n2 += 1
-                obj = arg_term(b, t, argi, 30)
+                # the object handed over for staging: whichever argument carries the reconstruction
+                cands = [arg_term(b, t, i_, 30) for i_ in range(len(t.args))]
+                obj = next((c_ for c_ in cands if any(x[0] == "call" and x[1] == recon for x in walk(c_))), cands[-1] if cands else ("cut",))
                 calls = [x for x in walk(obj) if x[0] == "call" and x[1] == recon]
                 ok = bool(calls)
                 same_tree = False
